@@ -7,7 +7,7 @@ hash / part-set-header hash. -/
 namespace Tmv.Drv.C13
 open Tmv Tmv.BlockSync
 
-def sigOK : Nat → SignBytes → Nat → Bool := fun _ _ s => s == 1
+def sigOK : Nat → SignBytes → Nat → Bool := fun key _ s => s == key + 1
 
 def hexNat (s : String) : Option Nat :=
   if s.isEmpty then none else
@@ -25,30 +25,39 @@ def parseId (s : String) : Option BlockId :=
 
 def showId (b : BlockId) : String := natHex b.hash ++ "/" ++ natHex b.psh
 
-def bit (c : Char) : Option Bool := if c = '1' then some true else if c = '0' then some false else none
-
-def parseSig (i : Nat) (t : String) : Option CSig :=
+def parseSig (t : String) : Option CSig :=
+  if t = "a" then some ⟨.absent, 0, 0, 0⟩ else
   match t.toList with
-  | ['a'] => some ⟨.absent, 0, 0, 0⟩
-  | [f, x, y] => do
-    let fl ← (if f = 'c' then some Flag.commit else if f = 'n' then some Flag.nil else none)
-    let ax ← bit x
-    let sy ← bit y
-    pure ⟨fl, if ax then i + 1 else 1000 + i, 0, if sy then 1 else 0⟩
-  | _ => none
+  | f :: rest =>
+    match (String.ofList rest).splitOn "." with
+    | [a, g] => do
+      let fl ← (if f = 'c' then some Flag.commit else if f = 'n' then some Flag.nil else none)
+      let ad ← (if a = "f" then some 999 else a.toNat?.map (· + 1))
+      let sg ← (if g = "x" then some 0 else g.toNat?.map (· + 1))
+      pure ⟨fl, ad, 0, sg⟩
+    | _ => none
+  | [] => none
 
-def parseSigs (s : String) : Option (List CSig) :=
-  let ts := splitComma s
-  (List.range ts.length |>.zip ts).mapM fun (i, t) => parseSig i t
+def parseSigs (s : String) : Option (List CSig) := (splitComma s).mapM parseSig
 
-def showSig (i : Nat) (s : CSig) : String :=
+def showSig (s : CSig) : String :=
   match s.flag with
   | .absent => "a"
-  | f => (if f = .commit then "c" else "n") ++ (if s.addr = i + 1 then "1" else "0") ++
-      (if s.sig = 1 then "1" else "0")
+  | f => (if f = .commit then "c" else "n") ++ (if s.addr = 999 then "f" else toString (s.addr - 1)) ++
+      "." ++ (if s.sig = 0 then "x" else toString (s.sig - 1))
 
 def showSigs (l : List CSig) : String :=
-  if l.isEmpty then "-" else ",".intercalate ((List.range l.length |>.zip l).map fun (i, s) => showSig i s)
+  if l.isEmpty then "-" else ",".intercalate (l.map showSig)
+
+/-- `power:key,…` in validator-set order -/
+def parseVals (s : String) : Option (List Val) :=
+  (splitComma s).mapM fun t =>
+    match t.splitOn ":" with
+    | [p, k] => do
+      let pw ← p.toNat?
+      let key ← k.toNat?
+      if pw = 0 then none else pure ⟨key + 1, key, pw⟩
+    | _ => none
 
 /-- `h:r:hash/psh:sigs` -/
 def parseCommit (s : String) : Option Commit :=
@@ -64,7 +73,9 @@ def parseBlock (toks : List String) : Option Block := do
   let flaw ← (← kv toks "flaw").toNat?
   let lc ← parseCommit (← kv toks "lc")
   let _ ← kv toks "d"
-  pure ⟨h, id, prev, lc, flaw ≠ 0⟩
+  let nvs ← kv toks "nv"
+  let nv ← (if nvs = "-" then some none else (parseVals nvs).map some)
+  pure ⟨h, id, prev, lc, flaw ≠ 0, nv⟩
 
 def showV : VErr → String
   | .size => "size" | .height => "height" | .blockId => "blockid"
@@ -110,12 +121,6 @@ def showHandover : Handover → String
 
 def getNat (toks : List String) (k : String) : Option Nat := (kv toks k).bind String.toNat?
 def getInt (toks : List String) (k : String) : Option Int := (kv toks k).bind String.toInt?
-
-def parseVals (s : String) : Option (List Val) :=
-  let ts := splitComma s
-  (List.range ts.length |>.zip ts).mapM fun (i, t) => do
-    let p ← t.toInt?
-    pure ⟨i + 1, i, p⟩
 
 def stepNode (n : Node) (toks : List String) : Node × String :=
   match toks with
@@ -177,18 +182,21 @@ def stepNode (n : Node) (toks : List String) : Node × String :=
       s!"conn={natList (sortNat n.connected)}")
   | ["store"] => (n, showStore n)
   | ["handover"] => (n, showHandover (n.handover sigOK))
+  | ["restart"] =>
+    let (n', r) := n.restart sigOK
+    (n', if r = .ok then s!"ok h={n'.pool.height}" else showHandover r)
   | _ => (n, "bad-op")
 
 def step (s : Option Node) (toks : List String) : Option Node × String :=
   match toks with
   | "init" :: rest =>
-    match (kv rest "vals").bind parseVals with
-    | some vals =>
-      if vals.isEmpty then (s, "bad-op") else
-      let st : St := ⟨1, 0, BlockId.zero, vals, []⟩
+    match (kv rest "vals").bind parseVals, (kv rest "ih").bind String.toNat? with
+    | some vals, some ih =>
+      if vals.isEmpty || ih = 0 then (s, "bad-op") else
+      let st : St := ⟨ih, 0, BlockId.zero, vals, vals, []⟩
       let n := Node.new st
       (some n, s!"ok h={n.pool.height}")
-    | none => (s, "bad-op")
+    | _, _ => (s, "bad-op")
   | _ =>
     match s with
     | some n => let (n', o) := stepNode n toks; (some n', o)
